@@ -1081,9 +1081,43 @@ def check_allclose(case, ctx):
 
 
 @st.composite
+def _members_of_dim(draw, units0, n, signed=True, decades=8):
+    """n scalar quantity descriptions of the dimension of units0, each in units0 or in another compatible unit
+    (never an empty unit list: a plain number is a different input class)."""
+    dv = G.dim(units0)
+    out = []
+    for _ in range(n):
+        units = _or(draw(G.compatible_units(dv)), units0) if draw(st.booleans()) else units0
+        out.append({"mag": draw(G.magnitudes(signed=signed, decades=decades)), "units": units})
+    return out
+
+
+def _build_member(form, elems):
+    """list / tuple of scalar quantities (each in its own unit), or one Quantity array in the unit of elems[0]."""
+    import numpy as np
+    if form == "qarray":
+        return np.array([e["mag"] for e in elems], dtype=float) * G.pq_unit(elems[0]["units"])
+    qs = [G.pq_quantity(e) for e in elems]
+    return tuple(qs) if form == "tuple" else qs
+
+
+@st.composite
 def spacing_cases(draw, log=False):
     units = draw(G.unit_products(1, 3, 2))
     stop_units = draw(G.compatible_units(G.dim(units)))
+    if draw(st.integers(0, 9)) >= 7:
+        # vector end points: lists / tuples of scalar quantities in different compatible units (or a Quantity array)
+        n = draw(st.integers(1, 3))
+        ends = {}
+        for which, u0 in (("start", units), ("stop", _or(stop_units, units))):
+            form = draw(st.sampled_from(["list", "tuple", "qarray"]))
+            elems = draw(_members_of_dim(u0, n, signed=not log, decades=5))
+            if form == "qarray":
+                for e in elems:
+                    e["units"] = elems[0]["units"]
+            ends[which] = {"form": form, "elems": elems}
+        return {"vec": True, "start": ends["start"], "stop": ends["stop"],
+                "num": draw(st.sampled_from([3, 2, 5, 1, 4])), "via": draw(st.sampled_from(["units", "pnp"]))}
     plain = draw(st.integers(0, 19)) == 19
     if plain:
         units, stop_units = [], []
@@ -1096,7 +1130,53 @@ def _q_or_number(qd):
     return G.pq_quantity(qd) if qd["units"] else qd["mag"]
 
 
+def _check_spacing_vec(case, ctx, log):
+    """start / stop are vectors: the result is (num, n), column j spaced between start_j and stop_j (SI values)."""
+    import numpy as np
+    cu = _cu()
+    s, e, num = case["start"], case["stop"], case["num"]
+    allu = [u for x in s["elems"] + e["elems"] for u in x["units"]]
+    _labels(ctx, allu)
+    ctx.label("num=%d" % num, "vector:start=%s,stop=%s" % (s["form"], e["form"]))
+    for end in (s, e):
+        if end["form"] != "qarray" and len(set(short(x["units"]) for x in end["elems"])) > 1:
+            ctx.label("mixed_units_in_container")
+    ss, se = [G.ref_si(x) for x in s["elems"]], [G.ref_si(x) for x in e["elems"]]
+    if not _in_range(*(ss + se)) or not _in_range(*[G.factor(x["units"]) for x in s["elems"] + e["elems"]]):
+        ctx.skip("out_of_double_range")
+        return
+    a, b = _build_member(s["form"], s["elems"]), _build_member(e["form"], e["elems"])
+    got = cu.logspace_from_lin(a, b, num) if log else _helper(cu, "linspace", case["via"])(a, b, num)
+    si, dv = G.observe(got)
+    name = "logspace" if log else "linspace"
+    if tuple(dv) != G.dim(s["elems"][0]["units"]):
+        ctx.fail(name + "_dimension", got=list(dv))
+        return
+    arr = np.asarray(si, dtype=float)
+    if arr.shape != (num, len(ss)):
+        ctx.fail(name + "_shape", got=list(arr.shape), expected=[num, len(ss)])
+        return
+    unc = sum(G.rel_unc(x["units"]) for x in s["elems"] + e["elems"])
+    for j in range(len(ss)):
+        if log:
+            import mpmath
+            mpmath.mp.dps = 30
+            ls = mpmath.log(mpmath.mpf(ss[j].numerator) / ss[j].denominator)
+            le = mpmath.log(mpmath.mpf(se[j].numerator) / se[j].denominator)
+            for i in range(num):
+                ref = float(mpmath.exp(ls + (le - ls) * i / max(num - 1, 1)))
+                if not _finite(arr[i, j]) or abs(arr[i, j] - ref) > (10 * TOL + unc) * abs(ref):     # as in the scalar case
+                    ctx.fail("logspace", index=[i, j], got=float(arr[i, j]), expected=ref)
+                    return
+        else:
+            refs = [ss[j] + (se[j] - ss[j]) * Fraction(i, max(num - 1, 1)) for i in range(num)]
+            if not _cmp_array(ctx, "linspace", arr[:, j], refs, 4 * TOL + unc, scale=max(abs(ss[j]), abs(se[j])), column=j):
+                return
+
+
 def check_linspace(case, ctx):
+    if case.get("vec"):
+        return _check_spacing_vec(case, ctx, log=False)
     cu = _cu()
     s, e, num = case["start"], case["stop"], case["num"]
     _labels(ctx, s["units"], e["units"])
@@ -1117,6 +1197,8 @@ def check_linspace(case, ctx):
 
 
 def check_logspace(case, ctx):
+    if case.get("vec"):
+        return _check_spacing_vec(case, ctx, log=True)
     import numpy as np
     cu = _cu()
     s, e, num = case["start"], case["stop"], case["num"]
@@ -1149,12 +1231,21 @@ def check_logspace(case, ctx):
 
 @st.composite
 def concat_cases(draw):
+    """1-4 members; a member is a Quantity array (one unit) or a plain list / tuple of scalar quantities, each in its
+    own compatible unit - in the first and in later positions."""
     n = draw(st.integers(1, 4))
     first = draw(G.quantities(max_factors=3, array=4))
-    arrays = [first]
-    for _ in range(n - 1):
-        arrays.append({"mag": draw(st.lists(G.magnitudes(), min_size=1, max_size=4)),
-                       "units": _or(draw(G.compatible_units(G.dim(first["units"]))), first["units"])})
+    arrays = []
+    for i in range(n):
+        form = draw(st.sampled_from(["qarray", "list", "tuple"]))
+        if form == "qarray":
+            if i == 0:
+                arrays.append(first)
+            else:
+                arrays.append({"mag": draw(st.lists(G.magnitudes(), min_size=1, max_size=4)),
+                               "units": _or(draw(G.compatible_units(G.dim(first["units"]))), first["units"])})
+        else:
+            arrays.append({"form": form, "elems": draw(_members_of_dim(first["units"], draw(st.integers(1, 4))))})
     return {"arrays": arrays, "via": draw(st.sampled_from(["units", "pnp"])),
             "outer": draw(st.sampled_from(["tuple", "list"]))}
 
@@ -1162,27 +1253,35 @@ def concat_cases(draw):
 def check_concatenate(case, ctx):
     cu = _cu()
     arrays = case["arrays"]
-    _labels(ctx, [u for a in arrays for u in a["units"]])
+    members = [a["elems"] if "form" in a else [a] for a in arrays]         # quantity descriptions per member
+    flatq = [q for m in members for q in m]
+    _labels(ctx, [u for q in flatq for u in q["units"]])
     ctx.label("narrays=%d" % len(arrays))
-    refs = [x for a in arrays for x in G.ref_si(a)]
-    if not _in_range(*refs) or not _in_range(*[G.factor(a["units"]) for a in arrays]):
+    for i, a in enumerate(arrays):
+        if "form" in a:
+            mixed = len(set(short(q["units"]) for q in a["elems"])) > 1
+            ctx.label("member:%s%s@%s" % (a["form"], "_mixed_units" if mixed else "", "first" if i == 0 else "later"))
+    refs = [x for q in flatq for x in _flat([G.ref_si(q)])]
+    if not _in_range(*refs) or not _in_range(*[G.factor(q["units"]) for q in flatq]):
         ctx.skip("out_of_double_range")
         return
-    objs = [G.pq_quantity(a) for a in arrays]
+    objs = [_build_member(a["form"], a["elems"]) if "form" in a else G.pq_quantity(a) for a in arrays]
     got = _helper(cu, "concatenate", case["via"])(tuple(objs) if case["outer"] == "tuple" else objs)
     si, dv = G.observe(got)
-    if tuple(dv) != G.dim(arrays[0]["units"]):
+    if tuple(dv) != G.dim(flatq[0]["units"]):
         ctx.fail("concatenate_dimension", got=list(dv))
         return
-    unc = sum(G.rel_unc(a["units"]) for a in arrays)
+    unc = sum(G.rel_unc(q["units"]) for q in flatq)
     _cmp_array(ctx, "concatenate", si, refs, 2 * TOL + unc)
 
 
 @st.composite
 def tile_cases(draw):
-    kind = draw(st.sampled_from(["qarray", "list", "qarray2d"]))
-    if kind == "list":
+    kind = draw(st.sampled_from(["qarray", "list", "qarray2d", "tuple", "nested"]))
+    if kind in ("list", "tuple"):
         elems = draw(_compatible_elems(draw(st.integers(1, 4))))
+    elif kind == "nested":
+        elems = draw(_compatible_elems(4))          # [[q0, q1], [q2, q3]], every scalar in its own unit
     else:
         q = draw(G.quantities(max_factors=3, array=4))
         if kind == "qarray2d":
@@ -1198,6 +1297,8 @@ def check_tile(case, ctx):
     kind, elems, reps = case["kind"], case["elems"], case["reps"]
     _labels(ctx, [u for e in elems for u in e["units"]])
     ctx.label("kind=" + kind, "reps=%s" % ("int" if isinstance(reps, int) else "pair"))
+    if len(set(short(e["units"]) for e in elems)) > 1:
+        ctx.label("mixed_units")
     refs = container_refs(kind, elems, G.ref_si)
     flat = _flat(refs)
     if not _in_range(*flat) or not _in_range(*[G.factor(e["units"]) for e in elems]):
@@ -1354,8 +1455,8 @@ def check_polyval(case, ctx):
 
 @st.composite
 def uniform_cases(draw):
-    kind = draw(st.sampled_from(["list", "tuple", "dict"]))
-    return {"kind": kind, "elems": draw(_compatible_elems(draw(st.integers(1, 5))))}
+    kind = draw(st.sampled_from(["list", "tuple", "dict", "nested"]))
+    return {"kind": kind, "elems": draw(_compatible_elems(4 if kind == "nested" else draw(st.integers(1, 5))))}
 
 
 def check_uniform(case, ctx):
@@ -1383,7 +1484,10 @@ def check_uniform(case, ctx):
         items = [got["k%d" % i] for i in range(len(elems))]
     else:
         try:
-            items = [got[i] for i in range(len(elems))]
+            if kind == "nested":
+                items = [got[i][j] for i in range(2) for j in range(2)]
+            else:
+                items = [got[i] for i in range(len(elems))]
         except Exception as e:  # noqa
             ctx.fail("uniform_not_indexable", got=repr(got)[:200], error=repr(e))
             return
@@ -1531,7 +1635,10 @@ SUBCHECKS = [
              rule="b_i = a_i + theta_i*(rtol*|a_i| + atol) in other units, theta in {0, +-.25, +-.5, +-4, 100}"),
     SubCheck("linspace", check_linspace, strategy=spacing_cases(), quick=300, thorough=20000, tolerances={"rel_of_max_endpoint": 4 * TOL}),
     SubCheck("logspace", check_logspace, strategy=spacing_cases(log=True), quick=300, thorough=20000, tolerances={"rel": 10 * TOL}),
-    SubCheck("concatenate", check_concatenate, strategy=concat_cases(), quick=300, thorough=20000, tolerances={"rel": 2 * TOL}),
+    SubCheck("concatenate", check_concatenate, strategy=concat_cases(), quick=400, thorough=25000, tolerances={"rel": 2 * TOL},
+             rule="1-4 members, each a Quantity array or a plain list / tuple of scalar quantities in different compatible "
+                  "units (first and later positions); linspace / logspace also with such containers as vector end points, "
+                  "tile / uniform also on tuples and nested lists"),
     SubCheck("tile", check_tile, strategy=tile_cases(), quick=300, thorough=20000, tolerances={"rel": 2 * TOL}),
     SubCheck("polyfit", check_polyfit, strategy=polyfit_cases(), quick=300, thorough=20000,
              rule="<= 7 points at distinct integer abscissae, degree <= 3, mixed units; exact rational least squares",
